@@ -14,7 +14,7 @@ NAME = "C12"
 LEVEL = "exploration"
 
 PLAN = {
-    "quick": {"runs": 6000, "chunk": 100, "budget": None, "max_ops": 5},
+    "quick": {"runs": 16000, "chunk": 200, "budget": None, "max_ops": 6},
     "thorough": {"runs": None, "chunk": 200, "budget": 600, "max_ops": 8},
 }
 
